@@ -162,11 +162,18 @@ func runC03(c *Check) {
 		}
 		// the isNew slice: []bool indexed in the guard that dominates HandleTx
 		var isNewSlice ssa.Value
+		isNewField := -1 // >= 0: the table is a list of records and this is the flag's field
 		hs := c.handlerInvokes(fn, "HandleTx")
 		for _, h := range hs {
 			for b := h.Instr.Block(); b != nil; b = b.Idom() {
 				if iff, ok := lastIf(b); ok {
 					cd := normCond(iff.Cond)
+					// the table as a list of records: the flag is a bool field of the list's element
+					if lst, fld, isRec := recordFlagRead(cd.V); isRec && isNewSlice == nil {
+						if b.Succs[0].Dominates(h.Instr.Block()) != cd.Neg {
+							isNewSlice, isNewField = lst, fld
+						}
+					}
 					if u, ok := cd.V.(*ssa.UnOp); ok && u.Op == token.MUL {
 						if ia, ok := u.X.(*ssa.IndexAddr); ok {
 							if sl, ok := ia.X.Type().Underlying().(*types.Slice); ok {
@@ -192,13 +199,16 @@ func runC03(c *Check) {
 			for _, b := range fn.Blocks {
 				for _, in := range b.Instrs {
 					call, ok := in.(*ssa.Call)
-					if !ok || builtinCall(call, "append") == nil || !derivesFromValue(isNewSlice, call) {
+					if !ok || builtinCall(call, "append") == nil || !types.Identical(call.Type(), isNewSlice.Type()) || !derivesFromValue(isNewSlice, call) {
 						continue
 					}
 					// appended element: a bool constant, possibly chosen on different paths (phi of constants)
 					var srcs []constAt
 					all := true
 					vals := appendedValues(call)
+					if isNewField >= 0 {
+						vals = recordFieldValues(vals, isNewField)
+					}
 					if len(vals) != 1 {
 						all = false
 					}
@@ -284,6 +294,10 @@ func runC03(c *Check) {
 			c.Min("R3", "classified-known appends", nF, 1)
 			isNewGuard := func(want bool) EdgePred {
 				return boolEdge(func(v ssa.Value) bool {
+					if isNewField >= 0 {
+						lst, fld, isRec := recordFlagRead(v)
+						return isRec && fld == isNewField && (sameExpr(lst, isNewSlice) || derivesFromValue(lst, isNewSlice) || derivesFromValue(isNewSlice, lst))
+					}
 					u, ok := v.(*ssa.UnOp)
 					if !ok || u.Op != token.MUL {
 						return false
@@ -610,4 +624,78 @@ func runC03(c *Check) {
 		}
 		c.Min("R9", "inserts into the unconfirmed map in Add", n, 1)
 	}
+}
+
+// recordFlagRead: v reads a bool field of an element of a list of records (`list[i].f`, or `e.f` with
+// `e` the element a range loop copied out of the list); returns the list and the field index.
+func recordFlagRead(v ssa.Value) (ssa.Value, int, bool) {
+	elemOf := func(x ssa.Value) ssa.Value { // x is *list[i] (a loaded record): the list
+		if u, ok := x.(*ssa.UnOp); ok && u.Op == token.MUL {
+			if ia, ok := u.X.(*ssa.IndexAddr); ok {
+				return ia.X
+			}
+		}
+		return nil
+	}
+	isBool := func(t types.Type) bool {
+		b, ok := t.Underlying().(*types.Basic)
+		return ok && b.Kind() == types.Bool
+	}
+	switch x := v.(type) {
+	case *ssa.Field:
+		if !isBool(x.Type()) {
+			return nil, 0, false
+		}
+		if l := elemOf(x.X); l != nil {
+			return l, x.Field, true
+		}
+	case *ssa.UnOp:
+		if x.Op != token.MUL || !isBool(x.Type()) {
+			return nil, 0, false
+		}
+		fa, ok := x.X.(*ssa.FieldAddr)
+		if !ok {
+			return nil, 0, false
+		}
+		if ia, ok := fa.X.(*ssa.IndexAddr); ok {
+			if _, isSl := ia.X.Type().Underlying().(*types.Slice); isSl {
+				return ia.X, fa.Field, true
+			}
+		}
+		if al, ok := fa.X.(*ssa.Alloc); ok {
+			for _, r := range *al.Referrers() {
+				if st, ok := r.(*ssa.Store); ok && st.Addr == ssa.Value(al) {
+					if l := elemOf(st.Val); l != nil {
+						return l, fa.Field, true
+					}
+				}
+			}
+		}
+	}
+	return nil, 0, false
+}
+
+// recordFieldValues: for appended records built field by field, the values stored into field fld.
+func recordFieldValues(recs []ssa.Value, fld int) []ssa.Value {
+	var out []ssa.Value
+	for _, r := range recs {
+		u, ok := r.(*ssa.UnOp)
+		if !ok || u.Op != token.MUL {
+			continue
+		}
+		al, ok := u.X.(*ssa.Alloc)
+		if !ok {
+			continue
+		}
+		for _, ref := range *al.Referrers() {
+			if fa, ok := ref.(*ssa.FieldAddr); ok && fa.Field == fld {
+				for _, r2 := range *fa.Referrers() {
+					if st, ok := r2.(*ssa.Store); ok && st.Addr == ssa.Value(fa) {
+						out = append(out, st.Val)
+					}
+				}
+			}
+		}
+	}
+	return out
 }
